@@ -41,6 +41,8 @@ CONSTANTS
   FailSaves,   \* BOOLEAN: the metadata store may reject a save
   Focus,       \* BOOLEAN: while a session is being opened or closed nothing else is scheduled
   Record,      \* BOOLEAN: hist carries predictions (events, projected state) besides the labels
+  HoldCb,      \* BOOLEAN: the user's handler of AfterRebalanceEnd takes time (it is held inside the callback): CbRet; a notification
+               \* that arrives meanwhile starts the next rebalance, which blocks on the rebalance lock (RbWait, RbAcquire)
   AckSplit,    \* BOOLEAN: an acknowledgement may be caught inside the consumer's TrackOffset (user code, called by setOffset between the
                \* position store and the dirty mark): AckBegin / AckMark instead of the atomic Ack
   ReadOnly,    \* BOOLEAN: metadata.readOnly - the backend is wrapped: Save and Clear are no-ops, Load passes through
@@ -203,7 +205,9 @@ FocusBusy == Focus /\ (opc # "none" \/ clo.on)
 Prompt0 == "LateWait" \in Gaps \/ wpark = <<>>
 \* a thread blocked in saveLock.Lock() takes the lock the moment it is released, before anything else happens
 LockHandoff == \E t \in SaveThreads : spc[t] = "blocked" /\ sv[t].gen \notin slock
-Prompt == Prompt0 /\ ~LockHandoff /\ ~GateReady
+\* ... and so does a Rebalance() blocked in rebalanceLock.Lock()
+RbHandoff == \E t \in RbThreads : rpc[t] = "blocked" /\ ~rlock
+Prompt == Prompt0 /\ ~LockHandoff /\ ~GateReady /\ ~RbHandoff
 Busy == FocusBusy \/ ~Prompt
 
 Die(es) == /\ up' = FALSE /\ mpc' = "off" /\ Emit(es \o <<[ev |-> "Died"]>>)
@@ -354,15 +358,19 @@ OpenRetEv(v, ok, rb, f) == [ev |-> "OpenRet", vb |-> v, ok |-> ok, uuid |-> IF o
                             rollback |-> rb, f |-> f]
 FinishOpen(pre) ==
   LET sp == Spawn(tokC, tokE, waits, wpark) IN
-  /\ opc' = "none" /\ open' = TRUE
+  /\ opc' = (IF HoldCb /\ opener # "main" THEN "cbend" ELSE "none") /\ open' = TRUE
   /\ tokC' = sp[1] /\ tokE' = sp[2] /\ waits' = sp[3] /\ wpark' = sp[4]
   /\ IF opener = "main"
      THEN /\ mpc' = "running"
           /\ Emit(pre \o <<CB("AfterStreamStart")>>)
           /\ UNCHANGED <<rebalances, balancing, rlock>>
-     ELSE /\ rebalances' = rebalances + 1 /\ balancing' = FALSE /\ rlock' = FALSE
-          /\ Emit(pre \o <<CB("AfterStreamStart"), CB("AfterRebalanceEnd")>>)
-          /\ UNCHANGED mpc
+     ELSE /\ rebalances' = rebalances + 1 /\ balancing' = FALSE /\ UNCHANGED mpc
+          /\ IF HoldCb
+             THEN \* stream.rebalance l.330-338: balancing is down, AfterRebalanceEnd is being handled, the deferred Unlock is still to come
+                  /\ UNCHANGED rlock
+                  /\ Emit(pre \o <<CB("AfterStreamStart"), CB("AfterRebalanceEnd"), [ev |-> "CallbackHeld", name |-> "AfterRebalanceEnd"]>>)
+             ELSE /\ rlock' = FALSE
+                  /\ Emit(pre \o <<CB("AfterStreamStart"), CB("AfterRebalanceEnd")>>)
   /\ opener' = "none"
 
 \* the server answers the stream request of v: res = "ok" | "err" | "rb" (rolled back to r, see client.go l.600-730)
@@ -850,10 +858,19 @@ Notify(t, i) ==
   /\ RebalanceEnter(t, timers)
   /\ Emit(<<[ev |-> "Notify", src |-> t, member |-> i[1], total |-> i[2]]>>)
 
-\* rb.prelock -> rebalanceLock.Lock -> BeforeRebalanceStart -> Close(false) up to the CloseStream gates
-RbLock(t) ==
+\* a membership change is published while dcp.close is closing the stream, or after it: dcp.close has unsubscribed the client's
+\* listener before stream.Close (dcp.go l.205), the membership's own listener went with the vBucket discovery: nothing happens
+NotifyLate ==
   /\ UNCHANGED wind
-  /\ up /\ ~Busy /\ rpc[t] = "want" /\ ~rlock /\ ~clo.on /\ mpc \in {"running", "closed"}
+  /\ up /\ ~Busy /\ EnvOK /\ mpc \in {"closing", "closed"} /\ cnt.notify < MaxNotify
+  /\ cnt' = [cnt EXCEPT !.notify = @ + 1]
+  /\ Emit(<<[ev |-> "NotifyLate"]>>)
+  /\ UNCHANGED <<up, slog, fo, wire, store, info, obsvVars, strVars, synVars, thrVars>>
+
+\* rb.prelock -> rebalanceLock.Lock -> BeforeRebalanceStart -> Close(false) up to the CloseStream gates
+RbBody(t, from) ==
+  /\ UNCHANGED wind
+  /\ up /\ (IF from = "want" THEN ~Busy ELSE Prompt0) /\ rpc[t] = from /\ ~rlock /\ ~clo.on /\ mpc \in {"running", "closed"}
   /\ reop = {}                        \* not explored: a rebalance closing the stream while a re-open request is outstanding
   /\ rlock' = TRUE
   /\ UNCHANGED <<up, slog, fo, wire, store, info, cnt, osnap, ouuid, ocatch, oendclosed, ocnt, flag, rng, active, finClose,
@@ -874,6 +891,23 @@ RbLock(t) ==
           /\ clo' = [on |-> TRUE, who |-> t, left |-> ClosableVbs]
           /\ Emit(<<CB("BeforeRebalanceStart")>> \o CloseBeginEvs)
           /\ UNCHANGED <<timers, cur>>
+
+RbLock(t) == RbBody(t, "want")
+\* the handler of AfterRebalanceEnd returns: rebalance()'s deferred Unlock
+CbRet ==
+  /\ UNCHANGED wind
+  /\ up /\ opc = "cbend" /\ opc' = "none" /\ rlock' = FALSE
+  /\ Emit(<<[ev |-> "CallbackDone", name |-> "AfterRebalanceEnd"]>>)
+  /\ UNCHANGED <<envVars, obsvVars, strVars, tokC, tokE, waits, wpark, timers, cur, slock, cgen, mpc, dcwc, opener, opened, live, foleft,
+                 lpart, clo, spc, sv, rpc, dpc, reop, scr, sinfo, rmVars>>
+\* rb.prelock -> rebalanceLock.Lock() while the previous rebalance is still inside its AfterRebalanceEnd handler: the thread blocks
+RbWait(t) ==
+  /\ UNCHANGED wind
+  /\ up /\ rpc[t] = "want" /\ rlock /\ opc = "cbend" /\ \A u \in RbThreads : rpc[u] # "blocked"
+  /\ rpc' = [rpc EXCEPT ![t] = "blocked"] /\ Emit(<<>>)
+  /\ UNCHANGED <<envVars, obsvVars, strVars, synVars, mpc, dcwc, opener, opc, opened, live, foleft, lpart, clo, spc, sv, dpc, reop, scr, sinfo, rmVars>>
+\* ... and goes on the moment the lock is released (not a step of the schedule: it happens by itself)
+RbAcquire(t) == RbBody(t, "blocked")
 
 \* a Close with nothing to close continues at once (cannot happen while offsets are loaded)
 CloseEmpty ==
@@ -1044,6 +1078,7 @@ Parked ==
   \cup {t \o "@md.Save" : t \in {u \in SaveThreads : spc[u] = "storing"}}
   \cup {t \o "@save.remark" : t \in {u \in SaveThreads : spc[u] = "remark"}}
   \cup (IF Held THEN {"acker@track"} ELSE {})
+  \cup (IF opc = "cbend" THEN {"lib:cb.hold"} ELSE {})
   \cup {"lib:CloseStream:" \o ToString(v) : v \in (IF clo.on THEN clo.left ELSE {})}
   \cup (IF scr = "wait" THEN {"scr@GetVBucketSeqNos"} ELSE {})
   \cup (IF rpc["api"] = "want" THEN {"api@rb.prelock"} ELSE {})
@@ -1095,6 +1130,10 @@ Step0(l) ==
     [] l.a = "CloseEmpty" -> CloseEmpty
     [] l.a = "Notify"     -> Notify(l.t, <<l.member, l.total>>)
     [] l.a = "RbLock"     -> RbLock(l.t)
+    [] l.a = "RbWait"     -> RbWait(l.t)
+    [] l.a = "RbAcquire"  -> RbAcquire(l.t)
+    [] l.a = "CbRet"      -> CbRet
+    [] l.a = "NotifyLate" -> NotifyLate
     [] l.a = "TimerFire"  -> TimerFire(l.i)
     [] l.a = "End"        -> End(l.vb, l.cause)
     [] l.a = "ReopenRet"  -> ReopenRet(l.vb, l.res, l.r)
@@ -1114,7 +1153,7 @@ Step0(l) ==
 ROReady == ReadOnly /\ \E t \in SaveThreads : spc[t] = "storing"
 HeldOK == {"AckMark", "SaveStart", "SaveLock", "SaveAcquire", "SaveTake", "StoreWrite", "SaveRet", "SaveRemark"}
 Step(l) == (GateReady => l.a \in {"GateOpen", "Crash"}) /\ (ROReady => l.a \in {"SaveRet", "Crash"})
-           /\ (Held => l.a \in HeldOK) /\ Step0(l)
+           /\ (Held => l.a \in HeldOK) /\ (opc = "cbend" => l.a \in {"CbRet", "Notify", "RbWait", "Crash"}) /\ Step0(l)
 
 MaxCtx == 6
 MaxTimers == 4
@@ -1144,8 +1183,10 @@ Labels ==
   \cup (IF Life THEN [a : {"CloseEmpty"}] \cup [a : {"WaitFin"}, k : {"close", "end"}] \cup [a : {"CloseRet"}, vb : VB]
                      \cup [a : {"End"}, vb : VB, cause : EndCauses \cup {"closed"}] ELSE {})
   \cup (IF AllowClose THEN [a : {"CloseCall"}] ELSE {})
+  \cup (IF AllowClose /\ MaxNotify > 0 THEN [a : {"NotifyLate"}] ELSE {})
   \cup (IF MaxNotify > 0 THEN [a : {"Notify"}, t : {"bus", "api"}, member : 1..NVB, total : 1..NVB]
                               \cup [a : {"RbLock"}, t : RbThreads] \cup [a : {"TimerFire"}, i : 1..MaxTimers] ELSE {})
+  \cup (IF MaxNotify > 0 /\ HoldCb THEN [a : {"CbRet"}] \cup [a : {"RbWait", "RbAcquire"}, t : RbThreads] ELSE {})
   \cup (IF MaxEnds > 0 THEN [a : {"ReopenRet"}, vb : VB, res : {"ok"}, r : {0}] ELSE {})
   \cup (IF MaxEnds > 0 /\ Rollbacks THEN [a : {"ReopenRet"}, vb : VB, res : {"rb"}, r : 0..MaxSeq] ELSE {})
 
@@ -1239,6 +1280,9 @@ NewMarks(l) ==
          THEN {"closeMidSave"} ELSE {})      \* progress acknowledged after the dump of the save in flight
   \cup (IF a = "CloseCall" /\ \E v \in VB : dpc[v] # "idle" THEN {"closeMidDelivery"} ELSE {})
   \cup (IF a = "CloseCall" /\ flag THEN {"closeWithUnsaved"} ELSE {})
+  \cup (IF a = "RbWait" THEN {"rebalanceWhileCallbackHeld"} ELSE {})
+  \cup (IF a = "NotifyLate" /\ mpc = "closing" THEN {"notifyWhileClosing"} ELSE {})
+  \cup (IF a = "NotifyLate" /\ mpc = "closed" THEN {"notifyAfterClose"} ELSE {})
   \cup (IF a = "End" /\ l.cause \in TransientCauses /\ offs[l.vb] # NoOff /\ offs[l.vb].seq > 0 THEN {"transientAfterProgress"} ELSE {})
   \cup (IF a = "End" /\ l.cause \notin TransientCauses /\ l.cause # "closed" /\ reop # {} THEN {"finalEndWhileReopening"} ELSE {})
   \cup (IF a = "OpenRet" /\ l.res = "rb" THEN {"rollback"} ELSE {})
